@@ -71,6 +71,8 @@ pub struct Cfg {
 /// configured chunk size the source delivers what fits and reports a full chunk. (A reader that
 /// always hands out chunk-sized slices never meets this lie.)
 pub const SHORT_SLICE_LIAR: usize = usize::MAX - 1;
+/// `claim == PANIC_SOURCE`: the source's `read` panics at call `at` (once); the caller catches it.
+pub const PANIC_SOURCE: usize = usize::MAX - 2;
 
 thread_local! {
     /// the chunk size the harness configured last on this thread's reader (what the liar compares with)
@@ -87,6 +89,12 @@ impl Read for LyingSource<'_> {
     fn read(&mut self, buf: &mut [u8]) -> io::Result<usize> {
         let i = self.calls.get();
         self.calls.set(i + 1);
+        if let Some((at, PANIC_SOURCE)) = self.lie {
+            if i == at {
+                panic!("scripted source panic");
+            }
+            return self.inner.read(buf);
+        }
         if let Some((at, SHORT_SLICE_LIAR)) = self.lie {
             let chunk = CUR_CHUNK.with(|c| c.get());
             if i >= at && buf.len() < chunk {
@@ -399,7 +407,7 @@ fn oracle(cfg: &Cfg, mode: Mode, data: &[u8], w: &mut World, op: &ROp, before: &
     }
     let need: Option<usize> = match op {
         ROp::Request(n) => Some(*n),
-        ROp::ByteAt(k) => Some(k + 1),
+        ROp::ByteAt(k) => Some(k.saturating_add(1)),
         ROp::RequestByte => Some(1),
         _ => None,
     };
@@ -441,7 +449,7 @@ fn oracle(cfg: &Cfg, mode: Mode, data: &[u8], w: &mut World, op: &ROp, before: &
 }
 
 fn check_byte(p: &mut Problems, k: usize, got: Option<u8>, stream: &[u8], cursor: usize, terminal: bool) {
-    let expected = stream.get(cursor + k).copied();
+    let expected = cursor.checked_add(k).and_then(|i| stream.get(i)).copied();
     match (got, expected) {
         (Some(g), Some(e)) if g == e => {}
         (None, None) if terminal => {}
@@ -483,7 +491,7 @@ fn alphabet(cfg: &Cfg, mode: Mode, w: &World, tier: Tier) -> Vec<ROp> {
     for n in [0usize, 1, 2, 3, 7] {
         ops.push(ROp::Request(n));
     }
-    for k in [1usize, 4] {
+    for k in [1usize, 4, usize::MAX] {
         ops.push(ROp::ByteAt(k));
     }
     let mut adv: Vec<usize> = vec![0, 1, 2, bl];
@@ -621,7 +629,7 @@ pub fn replay_value(cfg: &Cfg, mode: Mode, hist: &[Step]) -> Value {
         "config": format!("{cfg:?}"),
         "cfg": {"n": cfg.n, "fault_at": cfg.fault_at, "fault_kind": cfg.fault_kind, "chunk0": cfg.chunk0, "interrupts": cfg.interrupts, "menu_all": cfg.menu_all,
                  "ctor": match cfg.ctor { Ctor::FromRead => json!("from_read"), Ctor::FromBufReader { cap, consume } => json!({"cap": cap, "consume": consume}) },
-                 "lie": cfg.lie.map(|(a, c)| json!([a, if c == usize::MAX { -1i64 } else if c == SHORT_SLICE_LIAR { -2i64 } else { c as i64 }]))},
+                 "lie": cfg.lie.map(|(a, c)| json!([a, if c == usize::MAX { -1i64 } else if c == SHORT_SLICE_LIAR { -2i64 } else if c == PANIC_SOURCE { -3i64 } else { c as i64 }]))},
         "history": hist.iter().map(|s| json!({"op": op_to_json(&s.op), "choices": s.choices.iter().map(|(c, n)| json!([c, n])).collect::<Vec<_>>() })).collect::<Vec<_>>(),
     })
 }
@@ -669,7 +677,7 @@ fn cfg_from_json(v: &Value) -> Cfg {
         interrupts: v["interrupts"].as_u64().unwrap() as u32,
         menu_all: v["menu_all"].as_bool().unwrap_or(false),
         ctor: if v["ctor"].is_string() { Ctor::FromRead } else { Ctor::FromBufReader { cap: v["ctor"]["cap"].as_u64().unwrap() as usize, consume: v["ctor"]["consume"].as_u64().unwrap() as usize } },
-        lie: if v["lie"].is_null() { None } else { Some((v["lie"][0].as_u64().unwrap() as u32, if v["lie"][1].as_i64() == Some(-1) { usize::MAX } else if v["lie"][1].as_i64() == Some(-2) { SHORT_SLICE_LIAR } else { v["lie"][1].as_u64().unwrap() as usize })) },
+        lie: if v["lie"].is_null() { None } else { Some((v["lie"][0].as_u64().unwrap() as u32, if v["lie"][1].as_i64() == Some(-1) { usize::MAX } else if v["lie"][1].as_i64() == Some(-2) { SHORT_SLICE_LIAR } else if v["lie"][1].as_i64() == Some(-3) { PANIC_SOURCE } else { v["lie"][1].as_u64().unwrap() as usize })) },
     }
 }
 
@@ -843,7 +851,7 @@ pub fn configs(mode: Mode, tier: Tier) -> Vec<Cfg> {
             }
             if mode == Mode::C14 {
                 for at in 0..3u32 {
-                    for claim in [1usize, usize::MAX] {
+                    for claim in [1usize, usize::MAX, PANIC_SOURCE] {
                         v.push(Cfg { n, fault_at: None, fault_kind: 0, chunk0, ctor: Ctor::FromRead, interrupts: 0, lie: Some((at, claim)), menu_all: false });
                     }
                 }
